@@ -150,7 +150,7 @@ def register_assemble(reg):
            "implies(fs_isfile(self.path), self.meta['info']['pieces'] == v1_pieces(rest(listed_files(), 0), self.piece_length))"),
           ("C01", "every_listed_file_appears_once_in_order_with_its_exact_length",
            "implies(not fs_isfile(self.path) and not self.align, len(self.meta['info']['files']) == len(listed_files()) and "
-           "implies(0 <= j < len(listed_files()), self.meta['info']['files'][j]['length'] == len(fs_data(listed_files()[j])) and "
+           "implies(0 <= j < len(listed_files()), self.meta['info']['files'][j]['length'] == len(data_at(listed_files(), j)) and "
            "self.meta['info']['files'][j]['path'] == relpath_components(listed_files()[j], self.path)))"),
           ("C01", "recorded_piece_length_untouched", "self.meta['info']['piece length'] == old(self.meta['info']['piece length'])"),
           ("C01", "single_file_records_its_exact_length",
